@@ -38,6 +38,7 @@ type impExt struct {
 }
 
 type impWant struct {
+	stops    bool // also emit <iterator>_stop: the consumer declines after stop__ items
 	optRes   bool     // results of pointer-to-struct type are options (nil is None)
 	optPtr   []string // *T is (option T) everywhere, for these named types / "string"
 	ext      []impExt
@@ -53,7 +54,7 @@ type impWant struct {
 }
 
 var impWants = []impWant{
-	{dir: "sequtil", pkg: "sequtil",
+	{dir: "sequtil", pkg: "sequtil", stops: true,
 		funcs: []string{"Ntoi", "Iton", "complementByte", "ReverseComplement", "DNATo2Bit", "DNAFrom2Bit",
 			"CanonicalSubsequences", "Translate", "TranslateReadingFrames", "ReverseComplementString", "AminoName",
 			"init@sequtil.go#0", "init@sequtil.go#1", "var:codonToAmino", "var:aminoToName"},
@@ -69,16 +70,16 @@ var impWants = []impWant{
 	{dir: "align", pkg: "alignf", funcs: []string{"SubstitutionMatrix.Symmetrical"}, floatAs: "F"},
 	{dir: "trie", pkg: "trie", funcs: []string{"New", "Trie.Add", "Trie.Has", "Trie.Delete"}, heap: "Trie"},
 	{dir: "formats/fasta", pkg: "fasta", funcs: []string{"Fasta.Write", "Fasta.MarshalText"}, join: true},
-	{dir: "formats/fasta", pkg: "fastard", funcs: []string{"reader.read", "reader.iter", "Reader"}, errZ: true},
+	{dir: "formats/fasta", pkg: "fastard", stops: true, funcs: []string{"reader.read", "reader.iter", "Reader"}, errZ: true},
 	{dir: "formats/fastq", pkg: "fastq", funcs: []string{"Fastq.Write", "Fastq.MarshalText"}, join: true},
-	{dir: "formats/fastq", pkg: "fastqrd", funcs: []string{"reader.read", "reader.iter", "Reader"}, errZ: true, join: true},
+	{dir: "formats/fastq", pkg: "fastqrd", stops: true, funcs: []string{"reader.read", "reader.iter", "Reader"}, errZ: true, join: true},
 	{dir: "formats/sam", pkg: "sam", funcs: []string{"tagToText", "tagsToText", "SAM.Write", "SAM.MarshalText", "splitTag", "parseTags", "parseInts", "parseLine"}, optRes: true, join: true, floatAs: "F"},
-	{dir: "formats/sam", pkg: "samrd", funcs: []string{"ReaderHeader", "Reader"}, errZ: true, floatAs: "F", optPtr: []string{"SAM", "string"},
+	{dir: "formats/sam", pkg: "samrd", stops: true, funcs: []string{"ReaderHeader", "Reader"}, errZ: true, floatAs: "F", optPtr: []string{"SAM", "string"},
 		ext: []impExt{{name: "parseLine", coq: "imp_sam_parseLine", oracle: true, errBool: true}}, extRecs: map[string]string{"SAM": "sam"}},
 	{dir: "formats/smtext", pkg: "smtext", funcs: []string{"extractSingleChar", "ReadNCBI"}, errZ: true, floatAs: "F"},
-	{dir: "formats/bed", pkg: "bed", funcs: []string{"BED.Write", "BED.MarshalText", "parseLine", "reader.read", "Reader"}, join: true, errZ: true},
-	{dir: "formats/newick", pkg: "newick", funcs: []string{"quoted", "nameFromText", "nameToText", "Node.traverse", "Node.newick", "Node.MarshalText", "Node.Write"}, floatAs: "F"},
-	{dir: "formats/newick", pkg: "newickrd", heap: "Node", heapRec: true, funcs: []string{"reader.nextToken", "quoted", "nameFromText", "reader.read", "Reader"}, errZ: true, floatAs: "F"},
+	{dir: "formats/bed", pkg: "bed", stops: true, funcs: []string{"BED.Write", "BED.MarshalText", "parseLine", "reader.read", "Reader"}, join: true, errZ: true},
+	{dir: "formats/newick", pkg: "newick", stops: true, funcs: []string{"quoted", "nameFromText", "nameToText", "Node.traverse", "Node.newick", "Node.MarshalText", "Node.Write"}, floatAs: "F"},
+	{dir: "formats/newick", pkg: "newickrd", stops: true, heap: "Node", heapRec: true, funcs: []string{"reader.nextToken", "quoted", "nameFromText", "reader.read", "Reader"}, errZ: true, floatAs: "F"},
 }
 
 type impFn struct {
@@ -128,6 +129,7 @@ type impTr struct {
 	heapType string
 	heapRec  bool
 	fnHeap   bool
+	stopMode bool
 	optRes   bool
 	inResTy  bool
 	optPtr   []string
@@ -1180,6 +1182,11 @@ func (t *impTr) call(e *ast.CallExpr, pre *[]opener) string {
 			x = "(" + x + ")"
 		}
 		v := t.fresh()
+		if t.stopMode {
+			// the consumer declines after the stop__-th item (0: never)
+			*pre = append(*pre, opener{fmt.Sprintf("(let out__ := out__ ++ [%s] in let %s := negb (Nat.eqb (length out__) stop__) in ", x, v), ")"})
+			return v
+		}
 		*pre = append(*pre, opener{fmt.Sprintf("(let out__ := out__ ++ [%s] in let %s := true in ", x, v), ")"})
 		return v
 	}
@@ -3051,8 +3058,11 @@ func (t *impTr) function(fd *ast.FuncDecl, coqName string) *impFn {
 	fn.iter = t.yield != nil
 	fn.recv = t.recv != ""
 	fuel := ""
+	if t.stopMode {
+		fuel = "(stop__ : nat) "
+	}
 	if fn.fuel {
-		fuel = "(fuel : nat) "
+		fuel += "(fuel : nat) "
 	}
 	if fn.oracle {
 		fuel += "(o : foracle) "
@@ -3208,6 +3218,13 @@ func genImp(repo, out string) {
 			t.files = files
 			fn := t.function(decl, coqName)
 			t.fns[info.Defs[decl.Name]] = fn
+			if fn.iter && want.stops {
+				// the same iterator for a consumer that stops after stop__ items
+				t.stopMode = true
+				t.function(decl, coqName+"_stop")
+				t.stopMode = false
+				t.fns[info.Defs[decl.Name]] = fn
+			}
 			sb.WriteString(body.String())
 		}
 	}
